@@ -118,7 +118,6 @@ Go(ni, nl, nflags, ntv, nmark, dlo, dhi, opn, nre) ==
     /\ UNCHANGED <<tb, st, argv, phase, strict, snap, cr, out>>
 
 Scanning == phase \in {"pre", "main"} /\ i <= NArgs
-AtWord   == Scanning /\ l = 0
 P        == IF l = 0 THEN 2 ELSE l                        \* letter position inside a short word
 InShort  == Scanning /\ (l >= 2 \/ IsShortWord(W))
 LastLetter == P = Len(W)
@@ -132,7 +131,6 @@ NextL == IF LastLetter THEN 0 ELSE P + 1
 CurOpt == IF ~Scanning THEN 0
           ELSE IF l = 0 /\ IsLongWord(W) THEN FindLong(LongName(W))
           ELSE IF InShort THEN FindShort(W[P]) ELSE 0
-CurIsLong == l = 0 /\ IsLongWord(W)
 
 \* value assignment (only in the pass the option belongs to)
 Assign(j, v) == IF InPass(j) THEN [tv EXCEPT ![j] = v] ELSE tv
@@ -143,134 +141,145 @@ ValueOK(j, w) == IF Kind(j) = "int" THEN IsDecimal(w) ELSE TRUE
 
 ---------------------------------------------------------------------------------------------
 (* the spellings *)
+(* Every action is  guard /\ effect; the guards (G...) are state predicates of the cursor position and of the     *)
+(* option j the cursor is at (j = CurOpt, 0 = unknown).  A cursor position no guard accepts is a spelling outside  *)
+(* the argument universe (X) - see OpExcluded.                                                                     *)
+IsLongHere  == l = 0 /\ IsLongWord(W)
+ValuelessPos == (IsLongHere /\ ~HasEq(W)) \/ (InShort /\ LastLetter)      \* "-x" as last letter or "--long" without '='
+Attached    == Rest(W, P + 1)                                             \* what follows letter P in a short word
 
 \* S: a word that does not begin with '-' is a non-option word and is left alone
+GNonOption == l = 0 /\ ~StartsDash(W)
 OpNonOption ==
-    /\ AtWord /\ ~StartsDash(W)
+    /\ Scanning /\ GNonOption
     /\ Go(i + 1, 0, flags, tv, mark, 0, 0, FALSE, FALSE)
 
 \* E: a lone "-" / bare "--" is either counted bad or left as a non-option word; it never assigns (S)
+GLoneDash == l = 0 /\ IsLone(W)
 OpLoneDash ==
-    /\ AtWord /\ IsLone(W)
+    /\ Scanning /\ GLoneDash
     /\ Go(i + 1, 0, flags, tv, AnyAt(mark, i), 0, 1, FALSE, FALSE)
 
 \* C: unknown long option: counted bad, word skipped
-OpUnknownLong ==
-    /\ AtWord /\ IsLongWord(W) /\ CurOpt = 0
+GUnknownLong(j) == IsLongHere /\ j = 0
+OpUnknownLong(j) ==
+    /\ GUnknownLong(j)
     /\ Go(i + 1, 0, flags, tv, AnyAt(mark, i), 1, 1, FALSE, FALSE)
 
 \* C: unknown short letter: counted bad, the rest of the bundle is still parsed
-OpUnknownShort ==
-    /\ InShort /\ CurOpt = 0
+GUnknownShort(j) == InShort /\ j = 0
+OpUnknownShort(j) ==
+    /\ GUnknownShort(j)
     /\ Go(NextI, NextL, flags, tv, AnyAt(mark, i), 1, 1, FALSE, FALSE)
 
-\* "-x" inside or at the end of a bundle, x boolean: sets its bits (S).  E: a boolean word right after the
-\* bundle is either swallowed and ignored or left as a non-option word
-OpShortFlag ==
-    /\ InShort /\ CurOpt # 0
-    /\ LET j == CurOpt IN
-       /\ Kind(j) \in {"bool", "cnt"}
-       /\ ~IsBoolWord(Rest(W, P + 1))                                     \* X: -xon
-       /\ LET nt == IF Kind(j) = "cnt" THEN Assign(j, TV(tv[j].n + 1, FALSE, <<>>, <<>>)) ELSE tv
-              nf == IF Kind(j) = "bool" THEN SetBool(j, TRUE) ELSE flags IN
-          IF LastLetter /\ HasNext /\ IsBoolWord(Nxt)
-          THEN Go(i + 2, 0, nf, nt, AnyAt(Gone(i), i + 1), 0, 0, FALSE, FALSE)
-          ELSE Go(NextI, NextL, nf, nt, Gone(i), 0, 0, FALSE, FALSE)
+\* "-x" inside or at the end of a bundle, x boolean (or counter): sets its bits (S) / counts (I).  E: a boolean word
+\* right after the bundle is either swallowed and ignored or left as a non-option word.  X: "-xon"
+GShortFlag(j) == InShort /\ j # 0 /\ Kind(j) \in {"bool", "cnt"} /\ ~IsBoolWord(Attached)
+OpShortFlag(j) ==
+    /\ GShortFlag(j)
+    /\ LET nt == IF Kind(j) = "cnt" THEN Assign(j, TV(tv[j].n + 1, FALSE, <<>>, <<>>)) ELSE tv
+           nf == IF Kind(j) = "bool" THEN SetBool(j, TRUE) ELSE flags IN
+       IF LastLetter /\ HasNext /\ IsBoolWord(Nxt)
+       THEN Go(i + 2, 0, nf, nt, AnyAt(Gone(i), i + 1), 0, 0, FALSE, FALSE)
+       ELSE Go(NextI, NextL, nf, nt, Gone(i), 0, 0, FALSE, FALSE)
 
 \* "-xVALUE": the rest of the word is the value, verbatim (S)
-OpShortAttachedValue ==
-    /\ InShort /\ CurOpt # 0 /\ ~LastLetter
-    /\ LET j == CurOpt v == Rest(W, P + 1) IN
-       /\ Kind(j) \in {"int", "str"} /\ ValueOK(j, v) /\ ~StartsDash(v)
-       /\ Go(i + 1, 0, flags, Assign(j, ValueTV(j, v)), Gone(i), 0, 0, FALSE, InPass(j) /\ IsReassign(j))
+GShortAttachedValue(j) == /\ InShort /\ j # 0 /\ ~LastLetter /\ Kind(j) \in {"int", "str"}
+                          /\ ValueOK(j, Attached) /\ ~StartsDash(Attached)
+OpShortAttachedValue(j) ==
+    /\ GShortAttachedValue(j)
+    /\ Go(i + 1, 0, flags, Assign(j, ValueTV(j, Attached)), Gone(i), 0, 0, FALSE, InPass(j) /\ IsReassign(j))
 
 \* "-x VALUE": the next word is the value, verbatim (S); X: a value that begins with '-'
-OpShortNextValue ==
-    /\ InShort /\ CurOpt # 0 /\ LastLetter /\ HasNext
-    /\ LET j == CurOpt IN
-       /\ Kind(j) \in {"int", "str"} /\ ValueOK(j, Nxt) /\ ~StartsDash(Nxt)
-       /\ Go(i + 2, 0, flags, Assign(j, ValueTV(j, Nxt)), Gone2(i), 0, 0, FALSE, InPass(j) /\ IsReassign(j))
+GShortNextValue(j) == /\ InShort /\ j # 0 /\ LastLetter /\ HasNext /\ Kind(j) \in {"int", "str"}
+                      /\ ValueOK(j, Nxt) /\ ~StartsDash(Nxt)
+OpShortNextValue(j) ==
+    /\ GShortNextValue(j)
+    /\ Go(i + 2, 0, flags, Assign(j, ValueTV(j, Nxt)), Gone2(i), 0, 0, FALSE, InPass(j) /\ IsReassign(j))
 
 \* "--long" for a boolean (or counter) with no boolean word after it: set (S); a following non-boolean word is left alone (S)
-OpLongFlag ==
-    /\ AtWord /\ CurIsLong /\ CurOpt # 0 /\ ~HasEq(W)
-    /\ LET j == CurOpt IN
-       /\ Kind(j) \in {"bool", "cnt"}
-       /\ ~(Kind(j) = "bool" /\ HasNext /\ IsBoolWord(Nxt))
-       /\ Go(i + 1, 0, IF Kind(j) = "bool" THEN SetBool(j, TRUE) ELSE flags,
-             IF Kind(j) = "cnt" THEN Assign(j, TV(tv[j].n + 1, FALSE, <<>>, <<>>)) ELSE tv,
-             Gone(i), 0, 0, FALSE, FALSE)
+GLongFlag(j) == /\ IsLongHere /\ j # 0 /\ ~HasEq(W) /\ Kind(j) \in {"bool", "cnt"}
+                /\ ~(Kind(j) = "bool" /\ HasNext /\ IsBoolWord(Nxt))
+OpLongFlag(j) ==
+    /\ GLongFlag(j)
+    /\ Go(i + 1, 0, IF Kind(j) = "bool" THEN SetBool(j, TRUE) ELSE flags,
+          IF Kind(j) = "cnt" THEN Assign(j, TV(tv[j].n + 1, FALSE, <<>>, <<>>)) ELSE tv,
+          Gone(i), 0, 0, FALSE, FALSE)
 
-\* "--long=WORD" / "--long WORD", WORD a boolean word: set or clear accordingly (S)
-OpLongBoolWord ==
-    /\ AtWord /\ CurIsLong /\ CurOpt # 0
-    /\ LET j == CurOpt IN
-       /\ Kind(j) = "bool"
-       /\ IF HasEq(W)
-          THEN /\ IsBoolWord(LongVal(W))                                   \* X: --long=junk
-               /\ Go(i + 1, 0, SetBool(j, LongVal(W) \in BoolTrue), tv, Gone(i), 0, 0, FALSE, FALSE)
-          ELSE /\ HasNext /\ IsBoolWord(Nxt)
-               /\ Go(i + 2, 0, SetBool(j, Nxt \in BoolTrue), tv, Gone2(i), 0, 0, FALSE, FALSE)
+\* "--long=WORD" / "--long WORD", WORD a boolean word: set or clear accordingly (S).  X: "--long=junk"
+GLongBoolWord(j) == /\ IsLongHere /\ j # 0 /\ Kind(j) = "bool"
+                    /\ IF HasEq(W) THEN IsBoolWord(LongVal(W)) ELSE HasNext /\ IsBoolWord(Nxt)
+OpLongBoolWord(j) ==
+    /\ GLongBoolWord(j)
+    /\ IF HasEq(W)
+       THEN Go(i + 1, 0, SetBool(j, LongVal(W) \in BoolTrue), tv, Gone(i), 0, 0, FALSE, FALSE)
+       ELSE Go(i + 2, 0, SetBool(j, Nxt \in BoolTrue), tv, Gone2(i), 0, 0, FALSE, FALSE)
 
 \* "--long=VALUE" (S)
-OpLongEqValue ==
-    /\ AtWord /\ CurIsLong /\ CurOpt # 0 /\ HasEq(W)
-    /\ LET j == CurOpt v == LongVal(W) IN
-       /\ Kind(j) \in {"int", "str"} /\ ValueOK(j, v)
-       /\ Go(i + 1, 0, flags, Assign(j, ValueTV(j, v)), Gone(i), 0, 0, FALSE, InPass(j) /\ IsReassign(j))
+GLongEqValue(j) == IsLongHere /\ j # 0 /\ HasEq(W) /\ Kind(j) \in {"int", "str"} /\ ValueOK(j, LongVal(W))
+OpLongEqValue(j) ==
+    /\ GLongEqValue(j)
+    /\ Go(i + 1, 0, flags, Assign(j, ValueTV(j, LongVal(W))), Gone(i), 0, 0, FALSE, InPass(j) /\ IsReassign(j))
 
-\* "--long VALUE" (S)
-OpLongNextValue ==
-    /\ AtWord /\ CurIsLong /\ CurOpt # 0 /\ ~HasEq(W) /\ HasNext
-    /\ LET j == CurOpt IN
-       /\ Kind(j) \in {"int", "str"} /\ ValueOK(j, Nxt) /\ ~StartsDash(Nxt)
-       /\ Go(i + 2, 0, flags, Assign(j, ValueTV(j, Nxt)), Gone2(i), 0, 0, FALSE, InPass(j) /\ IsReassign(j))
+\* "--long VALUE" (S); X: a value that begins with '-'
+GLongNextValue(j) == /\ IsLongHere /\ j # 0 /\ ~HasEq(W) /\ HasNext /\ Kind(j) \in {"int", "str"}
+                     /\ ValueOK(j, Nxt) /\ ~StartsDash(Nxt)
+OpLongNextValue(j) ==
+    /\ GLongNextValue(j)
+    /\ Go(i + 2, 0, flags, Assign(j, ValueTV(j, Nxt)), Gone2(i), 0, 0, FALSE, InPass(j) /\ IsReassign(j))
 
 \* S: an option that needs a value and has none: counted bad at least once (exact count not claimed), assigns
 \* nothing, parsing continues and terminates
-OpMissingValue ==
-    /\ Scanning /\ CurOpt # 0 /\ ~HasNext
-    /\ (CurIsLong /\ ~HasEq(W)) \/ (InShort /\ LastLetter)
-    /\ LET j == CurOpt IN
-       /\ NeedsValue(j)
-       /\ Go(i + 1, 0, flags, tv, AnyAt(mark, i), IF InPass(j) THEN 1 ELSE 0, 0, TRUE, FALSE)
+GMissingValue(j) == j # 0 /\ ValuelessPos /\ ~HasNext /\ NeedsValue(j)
+OpMissingValue(j) ==
+    /\ GMissingValue(j)
+    /\ Go(i + 1, 0, flags, tv, AnyAt(mark, i), IF InPass(j) THEN 1 ELSE 0, 0, TRUE, FALSE)
 
-\* "-e w1 w2 ..." / "--exec w1 w2 ...": the argument list swallows the rest of the line, verbatim (S)
-OpArgListRest ==
-    /\ Scanning /\ CurOpt # 0 /\ HasNext
-    /\ (CurIsLong /\ ~HasEq(W)) \/ (InShort /\ LastLetter)
-    /\ LET j == CurOpt IN
-       /\ Kind(j) = "args"
-       /\ Go(NArgs + 1, 0, flags, Assign(j, TV(0, TRUE, <<>>, [k \in 1 .. (NArgs - i) |-> Txt(i + k)])),
-             [k \in 1 .. NArgs |-> IF k > i THEN "gone" ELSE Gone(i)[k]], 0, 0, FALSE, InPass(j) /\ IsReassign(j))
+\* "-e w1 w2 ..." / "--exec w1 w2 ...": the argument list swallows the rest of the line, verbatim (S).  X: "-eWORD"
+GArgListRest(j) == j # 0 /\ ValuelessPos /\ HasNext /\ Kind(j) = "args"
+OpArgListRest(j) ==
+    /\ GArgListRest(j)
+    /\ Go(NArgs + 1, 0, flags, Assign(j, TV(0, TRUE, <<>>, [k \in 1 .. (NArgs - i) |-> Txt(i + k)])),
+          [k \in 1 .. NArgs |-> IF k > i THEN "gone" ELSE Gone(i)[k]], 0, 0, FALSE, InPass(j) /\ IsReassign(j))
 
 \* "--exec=w1 w2 'w 3'": the value is split into words, quote-aware (S); parsing continues with the next word
-OpArgListEq ==
-    /\ AtWord /\ CurIsLong /\ CurOpt # 0 /\ HasEq(W)
-    /\ LET j == CurOpt IN
-       /\ Kind(j) = "args"
-       /\ Go(i + 1, 0, flags, Assign(j, TV(0, TRUE, <<>>, SplitWords(LongVal(W)))), Gone(i), 0, 0, FALSE,
-             InPass(j) /\ IsReassign(j))
+GArgListEq(j) == IsLongHere /\ j # 0 /\ HasEq(W) /\ Kind(j) = "args"
+OpArgListEq(j) ==
+    /\ GArgListEq(j)
+    /\ Go(i + 1, 0, flags, Assign(j, TV(0, TRUE, <<>>, SplitWords(LongVal(W)))), Gone(i), 0, 0, FALSE,
+          InPass(j) /\ IsReassign(j))
 
 \* abstract option: the client's handler is called with the value or with none.  Value = "=VALUE", the attached rest
-\* of a short word (C), or the next word unless that spells a known option (S)
-OpAbstract ==
-    /\ Scanning /\ CurOpt # 0 /\ (CurIsLong \/ InShort)
-    /\ LET j == CurOpt
-           call(hv, v) == Assign(j, TV(tv[j].n + 1, hv, v, <<>>)) IN
-       /\ Kind(j) = "abst"
-       /\ IF CurIsLong /\ HasEq(W) THEN Go(i + 1, 0, flags, call(TRUE, LongVal(W)), Gone(i), 0, 0, FALSE, FALSE)
-          ELSE IF InShort /\ ~LastLetter
-               THEN /\ ~StartsDash(Rest(W, P + 1))
-                    /\ Go(i + 1, 0, flags, call(TRUE, Rest(W, P + 1)), Gone(i), 0, 0, FALSE, FALSE)
-          ELSE IF ~HasNext THEN Go(i + 1, 0, flags, call(FALSE, <<>>), Gone(i), 0, 0, FALSE, FALSE)
-          ELSE IF ~StartsDash(Nxt) THEN Go(i + 2, 0, flags, call(TRUE, Nxt), Gone2(i), 0, 0, FALSE, FALSE)
-          ELSE /\ IsKnownOptionWord(Nxt)                                   \* X otherwise: a value that begins with '-'
-               /\ Go(i + 1, 0, flags, call(FALSE, <<>>), Gone(i), 0, 0, FALSE, FALSE)
+\* of a short word (C), or the next word unless that spells a known option (S).  X: a value that begins with '-'
+AbstEq       == IsLongHere /\ HasEq(W)
+AbstAttached == InShort /\ ~LastLetter
+GAbstract(j) == /\ j # 0 /\ Kind(j) = "abst" /\ (IsLongHere \/ InShort)
+                /\ IF AbstEq THEN TRUE
+                   ELSE IF AbstAttached THEN ~StartsDash(Attached)
+                   ELSE IF ~HasNext THEN TRUE
+                   ELSE IF ~StartsDash(Nxt) THEN TRUE
+                   ELSE IsKnownOptionWord(Nxt)
+OpAbstract(j) ==
+    /\ GAbstract(j)
+    /\ LET call(hv, v) == Assign(j, TV(tv[j].n + 1, hv, v, <<>>)) IN
+       IF AbstEq THEN Go(i + 1, 0, flags, call(TRUE, LongVal(W)), Gone(i), 0, 0, FALSE, FALSE)
+       ELSE IF AbstAttached THEN Go(i + 1, 0, flags, call(TRUE, Attached), Gone(i), 0, 0, FALSE, FALSE)
+       ELSE IF ~HasNext THEN Go(i + 1, 0, flags, call(FALSE, <<>>), Gone(i), 0, 0, FALSE, FALSE)
+       ELSE IF ~StartsDash(Nxt) THEN Go(i + 2, 0, flags, call(TRUE, Nxt), Gone2(i), 0, 0, FALSE, FALSE)
+       ELSE Go(i + 1, 0, flags, call(FALSE, <<>>), Gone(i), 0, 0, FALSE, FALSE)
 
-ScanStep == \/ OpNonOption \/ OpLoneDash \/ OpUnknownLong \/ OpUnknownShort \/ OpShortFlag
-            \/ OpShortAttachedValue \/ OpShortNextValue \/ OpLongFlag \/ OpLongBoolWord \/ OpLongEqValue
-            \/ OpLongNextValue \/ OpMissingValue \/ OpArgListRest \/ OpArgListEq \/ OpAbstract
+\* the argument universe at the cursor: some spelling applies
+InUniverse(j) == \/ GNonOption \/ GLoneDash \/ GUnknownLong(j) \/ GUnknownShort(j) \/ GShortFlag(j)
+                 \/ GShortAttachedValue(j) \/ GShortNextValue(j) \/ GLongFlag(j) \/ GLongBoolWord(j)
+                 \/ GLongEqValue(j) \/ GLongNextValue(j) \/ GMissingValue(j) \/ GArgListRest(j) \/ GArgListEq(j)
+                 \/ GAbstract(j)
+
+ScanStep == /\ Scanning
+            /\ LET j == CurOpt IN
+               \/ OpNonOption \/ OpLoneDash \/ OpUnknownLong(j) \/ OpUnknownShort(j) \/ OpShortFlag(j)
+               \/ OpShortAttachedValue(j) \/ OpShortNextValue(j) \/ OpLongFlag(j) \/ OpLongBoolWord(j)
+               \/ OpLongEqValue(j) \/ OpLongNextValue(j) \/ OpMissingValue(j) \/ OpArgListRest(j) \/ OpArgListEq(j)
+               \/ OpAbstract(j)
 
 ---------------------------------------------------------------------------------------------
 (* results and pass sequencing *)
@@ -320,8 +329,16 @@ OpCompactEnd ==
 \* X: the cursor is at a spelling outside the argument universe (no scanner action applies).  The behaviour ends
 \* here; the implementation is still run on this command line, for termination and memory safety only
 OpExcluded ==
-    /\ Scanning /\ ~ENABLED ScanStep
+    /\ Scanning /\ ~InUniverse(CurOpt)
     /\ Finish(<<>>, FALSE)
+
+\* the guards partition nothing twice: at most one spelling applies at any cursor position (the reading is a function)
+GuardCount(j) == Cardinality({ g \in 1 .. 15 :
+    CASE g = 1 -> GNonOption [] g = 2 -> GLoneDash [] g = 3 -> GUnknownLong(j) [] g = 4 -> GUnknownShort(j)
+      [] g = 5 -> GShortFlag(j) [] g = 6 -> GShortAttachedValue(j) [] g = 7 -> GShortNextValue(j) [] g = 8 -> GLongFlag(j)
+      [] g = 9 -> GLongBoolWord(j) [] g = 10 -> GLongEqValue(j) [] g = 11 -> GLongNextValue(j) [] g = 12 -> GMissingValue(j)
+      [] g = 13 -> GArgListRest(j) [] g = 14 -> GArgListEq(j) [] g = 15 -> GAbstract(j) })
+ReadingIsFunction == Scanning => GuardCount(CurOpt) <= 1
 
 Next == ScanStep \/ OpPrePassEnd \/ OpMainPassEnd \/ OpCompactBegin \/ OpCompactStep \/ OpCompactEnd \/ OpExcluded
 
